@@ -123,6 +123,7 @@ type Machine struct {
 	fakePtrs  map[uint64]Value
 	addrObjs  map[uint64]*ByteObj
 	concrete  map[string]uint64
+	fixRandom bool
 	concBound int
 	crcBound  int
 	copyBound int
